@@ -9,7 +9,7 @@ RULE = ('cases = (entry point, record, dt, target_dt, even); entry points interp
         'pairs (dt, target): equal, refinement k in 2..40, decimation m in 2..60, commensurate decimal pairs (0.01/0.005, 0.01/0.03, 0.02/0.005, ...), '
         'and pairs built to put dt/target or target/dt within 0..3 ulps of an integer on either side; even in {True, False}; '
         'records: integer series scaled by 2^-s with power-of-two factors (exact domain, tolerance 0: every float operation of the code is exact) and arbitrary float records / factors (rtol 1e-10 of max|v|); '
-        'lengths from 2*max(1, target/dt) up to 300 (quick) / 2000 (thorough) for value-carrying cases, up to 5000 for scalar cases; returned step and output length compared bit-for-bit with the binary64 kernel on every case; '
+        'lengths from 2*max(1, target/dt) up to 300 (quick) / 2000 (thorough) for value-carrying cases, up to 5000 for scalar cases (plus refinements of 2100..6000 samples whose output exceeds 2^20 samples, scalar cases); returned step and output length compared bit-for-bit with the binary64 kernel on every case; '
         'non-trivial = factor != 1 and the record is not constant; Fourier variant: on-grid sinusoid sums below both Nyquist frequencies, outputs enclosed by interval-arithmetic proofs (1e-9); '
         'refinements of even-length records additionally with the alternation a*cos(pi t/dt) (harmonic npts/2 = the old Nyquist frequency, below the new one)')
 TRUSTED = [
@@ -225,6 +225,14 @@ def run(rep, rng, tier):
             if n > 5000 or n < min_len(dt, tg):
                 continue
             emit(fn, zeros.setdefault(n, np.zeros(n)), dt, tg, even, RTOL, full=False)
+    # ---- refinements whose OUTPUT has more than 2^20 samples (long record, very small target): scalar cases, only the returned
+    #      step and the output length go to Coq
+    big = [(0, 6000, 1.0, 0.004, True), (1, 4500, 0.5, 0.002, False)]
+    if tier != 'quick':
+        big += [(0, 3000, 1.0, 0.0009, False), (1, 6000, 0.02, 0.0001, True), (0, 5000, 1.0, 1.0 / 512, True), (1, 2100, 1.0, 1.0 / 512, False)]
+    for fn, n, dt, tg, even in big:
+        assert n * math.ceil(dt / tg) > 2 ** 20
+        emit(fn, zeros.setdefault(n, np.zeros(n)), dt, tg, even, RTOL, full=False)
     rep.extra['float_new_dt_exceeds_target_by_rounding'] = stats['float_exceeds_target_by_ulps']
     rep.correspond('model.K_C14', 'check_case', cases, describe='model_out %s')
     rep.correspond('model.K_C14', 'check_kernel', light, describe='model_kout %s', max_cases=2000)
